@@ -15,6 +15,7 @@ var Registry = map[string]Prop{
 	"C05": {C05, c05Replay},
 	"C06": {C06, c06Replay},
 	"C07": {C07, c07Replay},
+	"C08": {C08, c08Replay},
 	"C09": {C09, c09Replay},
 	"C10": {C10, c10Replay},
 	"C11": {C11, c11Replay},
